@@ -369,6 +369,55 @@ func init() {
 		}
 		return first
 	})
+	// route conc <ms> <hex host>…: the listeners of a service share ONE table and look hosts up at the same time (one loop
+	// goroutine each): every answer given under concurrency equals the answer given to the same host when asked alone
+	vReg("route conc", func(a []string) string {
+		ms, _ := strconv.Atoi(a[0])
+		find := func(h string) string {
+			proto, host, port, err := pcr.FindRoute(h)
+			if err != nil {
+				return "none"
+			}
+			return fmt.Sprintf("%s %s %d", proto, host, port)
+		}
+		var hosts []string
+		want := map[string]string{}
+		for _, x := range a[1:] {
+			h := unhx(x)
+			hosts = append(hosts, h)
+			want[h] = find(h)
+		}
+		var stop, bad int32
+		var wg sync.WaitGroup
+		for k := 0; k < 4; k++ {
+			wg.Add(1)
+			go func(k int) {
+				defer wg.Done()
+				defer func() {
+					if r := recover(); r != nil {
+						atomic.StoreInt32(&bad, 2)
+					}
+				}()
+				for i := k; atomic.LoadInt32(&stop) == 0; i++ {
+					h := hosts[i%len(hosts)]
+					if find(h) != want[h] {
+						atomic.StoreInt32(&bad, 1)
+						return
+					}
+				}
+			}(k)
+		}
+		time.Sleep(time.Duration(ms) * time.Millisecond)
+		atomic.StoreInt32(&stop, 1)
+		wg.Wait()
+		switch atomic.LoadInt32(&bad) {
+		case 1:
+			return "answer-changed-under-concurrent-lookups"
+		case 2:
+			return "panic-under-concurrent-lookups"
+		}
+		return "ok"
+	})
 	vReg("route item", func(a []string) string {
 		it, err := NewPreRouteItem(unhx(a[0]), unhx(a[1]), unhx(a[2]))
 		if err != nil {
